@@ -144,7 +144,8 @@ where
                                     crate::state::ConnectionState::Disconnected,
                                 );
                             }
-                            *this.attempt += 1;
+                            // Saturating: with unlimited attempts the loop may outlive a u32
+                            *this.attempt = this.attempt.saturating_add(1);
 
                             // Store the error for potential use
                             *this.last_error = Some(error);
